@@ -64,6 +64,15 @@ def main():
         meta["builds"] = rcb == 0
         rct, outt = sh("go test -vet=off -count=1 -timeout 20m ./... 2>&1 | grep -v 'no test files'", cwd=wt, timeout=1500)
         fails = [l for l in outt.splitlines() if l.startswith("FAIL") or l.startswith("--- FAIL") or "panic:" in l]
+        if fails:
+            # the repository's own TestVerifyCachedTaggedScopesAlloc (an allocation count) fails now and then under
+            # machine load on the pristine tree too: a failure counts only if it repeats in two further runs
+            meta["existing_tests_first_run_failures"] = fails[:6]
+            again = []
+            for _ in range(2):
+                rct, outt2 = sh("go test -vet=off -count=1 -timeout 20m ./... 2>&1 | grep -v 'no test files'", cwd=wt, timeout=1500)
+                again.append([l for l in outt2.splitlines() if l.startswith("FAIL") or l.startswith("--- FAIL") or "panic:" in l])
+            fails = [l for l in again[0] if l in again[1]]
         meta["existing_tests_pass"] = not fails
         meta["existing_tests_tail"] = outt[-600:]
         rc1, out1 = run_demo()
